@@ -124,9 +124,10 @@ def outerSimdShape (N : Nat) (out lhs rhs : List Nat) : List Nat :=
   let s := lhs ++ rhs
   s.take (s.length - 1) ++ [nOps / N + (if nOps % N ≠ 0 then 1 else 0)]
 
-/-- `Σ_{i<cnt} strides[i] * indices[i+start]` (the two local lambdas of `outer_simd`) -/
+/-- `Σ_{i<cnt} strides[i] * indices[i+start]` (the two local lambdas of `outer_simd`: `compute_outer_simd_offset`
+    and `compute_offset(indices, strides, start_dim, N)`), written with `computeOffset` on the index window -/
 def partialOffset (indices strides : List Nat) (start cnt : Nat) : Nat :=
-  (List.range cnt).foldl (fun acc i => acc + strides.getD i 0 * indices.getD (i + start) 0) 0
+  computeOffset ((indices.drop start).take cnt) strides
 
 /-- `outer_simd(N, simd_index, _, out_strides, out_shape, lhs_shape, rhs_shape, lhs_strides, rhs_strides)` -/
 def outerSimd (N : Nat) (idx out lhs rhs : List Nat) : TIdx × TIdx × TIdx :=
